@@ -205,6 +205,8 @@ def check(tree, rep, tier='quick', seed=0):
                        sample={'line': f'{y}/{l["line"]}', 'source': src})
     from .c15 import balance_identities
     balance_identities(an, rep)          # refund-minus-owed = payments - tax on every path (the identity the withholding relation rests on)
+    from ..linerules import l6_iterated_sequences_are_not_edited
+    l6_iterated_sequences_are_not_edited(tree, rep)
     n_el = election_consistency(an, rep)
     n_nc = nc_withholding_split(an, rep)
     n_mono = monotone_directions(an, rep, tier)
